@@ -2498,3 +2498,133 @@ Proof.
   - apply generated_b_sound. exact H4.
   - apply key_guard_b_sound. exact H5.
 Qed.
+
+(* ------------------------------------------------------------------ __post_init__ for ANY hierarchy *)
+(* nothing but the end of the top-level call runs __post_init__: holds for every class
+   table (multiple inheritance, hand-written constructors, any depth) *)
+Lemma set_attr_post m a v s s' : set_attr m a v s = Ok s' -> s_post s' = s_post s.
+Proof.
+  unfold set_attr. destruct (find_attr a (m_attrs m)) as [r|].
+  - destruct (match v with Some x => _ | None => _ end); [|discriminate].
+    intro H. injection H as H. subst s'. reflexivity.
+  - destruct v; intro H; injection H as H; subst s'; reflexivity.
+Qed.
+
+Lemma fold_post {A} (f : res st -> A -> res st) l :
+  (forall s x s', f (Ok s) x = Ok s' -> s_post s' = s_post s) ->
+  (forall e x, f (Err e) x = Err e) ->
+  forall s s', fold_left f l (Ok s) = Ok s' -> s_post s' = s_post s.
+Proof.
+  intros HS HE. induction l as [|x t IH]; intros s s' H.
+  - simpl in H. injection H as H. subst. reflexivity.
+  - simpl in H. destruct (f (Ok s) x) as [s1|e] eqn:F.
+    + rewrite (IH s1 s' H). apply (HS s x s1 F).
+    + rewrite fold_err in H by (intro b; apply HE). discriminate.
+Qed.
+
+Lemma own_loop_post ra m p kw s s' : own_loop ra m p kw s = Ok s' -> s_post s' = s_post s.
+Proof.
+  unfold own_loop. apply fold_post.
+  - intros s0 r s1. destruct (_ || _); [intro H; injection H as H; subst; reflexivity|].
+    destruct (match kw_get (r_name r) kw with Some v => Some v | None => lookup_default ra r end).
+    + apply set_attr_post.
+    + intro H; injection H as H; subst; reflexivity.
+  - reflexivity.
+Qed.
+
+Lemma run_hinit_post m c h kw s s' : run_hinit m c h kw s = Ok s' -> s_post s' = s_post s.
+Proof.
+  unfold run_hinit. destruct (negb _); [discriminate|].
+  match goal with |- context [fold_left ?f ?l (Ok s)] => destruct (fold_left f l (Ok s)) as [s1|e] eqn:F end;
+    [|discriminate].
+  intro H. injection H as H. subst s'. simpl.
+  revert F. apply fold_post.
+  - intros s0 p s2. destruct (snd p) as [v|].
+    + destruct (apply_fn _ v); [apply set_attr_post | discriminate].
+    + destruct (match assoc (fst p) (h_tr h) with Some f => f | None => FId end);
+        try discriminate; apply set_attr_post.
+  - reflexivity.
+Qed.
+
+Lemma call_parent_post ra m parent kw s s' :
+  call_parent_init ra m parent kw s = Ok s' -> s_post s' = s_post s.
+Proof.
+  unfold call_parent_init.
+  destruct (first_some _ (rc_mro parent)) as [[g [|h]]|].
+  - destruct (rc_meta g) as [gm|]; [|discriminate]. unfold gen_init_inner.
+    destruct (negb _); [discriminate | apply own_loop_post].
+  - apply run_hinit_post.
+  - destruct kw; [|discriminate]. intro H. injection H as H. subst. reflexivity.
+Qed.
+
+Lemma parent_step_post q ra m kw s pc kw' s' :
+  parent_step q ra m (Ok (kw, s)) pc = Ok (kw', s') -> s_post s' = s_post s.
+Proof.
+  unfold parent_step. destruct (find_cls pc ra) as [parent|]; [|intro H; injection H as _ H; subst; reflexivity].
+  destruct (if q_plain_parent q then _ else _) as [pm|]; [|intro H; injection H as _ H; subst; reflexivity].
+  match goal with |- context [fold_left ?f ?l ?a] => destruct (fold_left f l a) as [[pkw kw1]|e] end;
+    [|discriminate].
+  destruct (call_parent_init ra m parent _ s) as [s1|e] eqn:CP; [|discriminate].
+  intro H. injection H as _ H. subst s'. apply (call_parent_post _ _ _ _ _ _ CP).
+Qed.
+
+Lemma parents_post q ra m l : forall kw s kw' s',
+  fold_left (parent_step q ra m) l (Ok (kw, s)) = Ok (kw', s') -> s_post s' = s_post s.
+Proof.
+  induction l as [|x t IH]; intros kw s kw' s' H.
+  - simpl in H. injection H as _ H. subst. reflexivity.
+  - cbn [fold_left] in H. destruct (parent_step q ra m (Ok (kw, s)) x) as [[kw1 s1]|e] eqn:P.
+    + rewrite (IH _ _ _ _ H). apply (parent_step_post _ _ _ _ _ _ _ _ P).
+    + rewrite fold_err in H by reflexivity. discriminate.
+Qed.
+
+Theorem post_init_at_most_once q ct c pos kw s :
+  construct q ct c pos kw = Ok s -> length (s_post s) <= 1.
+Proof.
+  unfold construct, construct_in. set (ra := ranc (resolve_all q ct) c).
+  destruct (first_some _ ra) as [[g [|h]]|]; [| |discriminate].
+  - destruct (rc_meta g) as [gm|]; [|discriminate]. destruct (self_meta ra) as [m|]; [|discriminate].
+    destruct (match m_key gm with Some ka => _ | None => _ end) as [kw1|e]; [|discriminate].
+    destruct (negb (wrapper_ok gm kw1)); [discriminate|].
+    destruct (m_owner m =? rc_id g).
+    + unfold init_top.
+      destruct (fold_left (parent_step q ra m) _ _) as [[kw2 s1]|e] eqn:F; [|discriminate].
+      destruct (own_loop ra m (rc_id g) kw2 s1) as [s2|e] eqn:O; [|discriminate].
+      destruct (match m_ovf m with Some o => _ | None => Ok s2 end) as [s3|e] eqn:V; [|discriminate].
+      assert (P3 : s_post s3 = []).
+      { assert (P2 : s_post s2 = []).
+        { rewrite (own_loop_post _ _ _ _ _ _ O). apply (parents_post _ _ _ _ _ _ _ _ F). }
+        destruct (m_ovf m); [rewrite (set_attr_post _ _ _ _ _ V); exact P2 | injection V as V; subst; exact P2]. }
+      intro H. injection H as H. subst s.
+      destruct (if q_static_post q then _ else _); simpl; rewrite P3; simpl; lia.
+    + intro H. rewrite (own_loop_post _ _ _ _ _ _ H). simpl. lia.
+  - destruct (self_meta ra) as [m|]; [|discriminate].
+    destruct pos as [v|].
+    + destruct (h_params h) as [|[p d] t]; [discriminate|].
+      destruct (has p _); [discriminate|]. intro H. rewrite (run_hinit_post _ _ _ _ _ _ H). simpl. lia.
+    + intro H. rewrite (run_hinit_post _ _ _ _ _ _ H). simpl. lia.
+Qed.
+
+(* ------------------------------------------------------------------ resolution = declarative reading *)
+Theorem resolve_meets_spec ct c M :
+  wf_table ct -> In c (map k_id ct) -> wfc (anc ct c) ->
+  nearest_meta (ranc (resolve_all cur ct) c) = Some M ->
+  m_key M = key_of (anc ct c)
+  /\ m_ovf M = ovf_of (anc ct c)
+  /\ map r_name (m_attrs M) = managed (anc ct c)
+  /\ forall r, In r (m_attrs M) ->
+       r_ty r = ty_of (anc ct c) (r_name r)
+       /\ r_init r = init_of (anc ct c) (r_name r)
+       /\ owner (anc ct c) (r_name r) = Some (r_owner r)
+       /\ r_prep r = prep_of (anc ct c) (r_name r)
+       /\ lookup_default (ranc (resolve_all cur ct) c) r
+          = nearest_default (Some (r_owner r)) (r_name r) (anc ct c).
+Proof.
+  intros WT Hc W HM.
+  destruct (tab_inv_all ct WT c Hc) as [_ CH _ _ _ RA _].
+  rewrite RA, (rchain_rch _ CH W) in *.
+  destruct (M_inv _ CH W M HM) as [K [O [N A]]].
+  split; [exact K|]. split; [exact O|]. split; [exact N|].
+  intros r Hr. destruct (A r Hr) as [T [I [OW [P [L _]]]]].
+  repeat split; assumption.
+Qed.
